@@ -112,6 +112,13 @@ func c01Run(c *engine.Ctx) {
 		}
 	}
 	c01Scalars(c)
+	// boundary-length strings, empty-but-non-nil neighbours, one identity in two properties
+	universe.Scale(func(r universe.Recipe) { c01Case(c, r, "method") })
+	for i := range universe.Structs {
+		s := &universe.Structs[i]
+		universe.Degenerate(s, universe.JSON, func(r universe.Recipe) { c01Case(c, r, "method") })
+		universe.SharedIdentity(s, func(r universe.Recipe) { c01Case(c, r, "pkg") })
+	}
 	if c.Quick() {
 		return
 	}
